@@ -17,7 +17,7 @@
    wc_cb_starts h / wc_cb_ends h   threads that started / ended a callback
    wc_close_rets h                 threads that returned from Close
    wc_ret_chans h                  channels returned by C() or selected on by WaitUtil *)
-From Got Require Import Base WaitClose WaitCloseInv WaitCloseProofs.
+From Got Require Import Base WaitClose WaitCloseInv WaitCloseProofs WaitCloseHarness.
 Local Open Scope nat_scope.
 
 (* the invariant holds in every reachable state *)
@@ -183,6 +183,56 @@ Theorem wc_terminates :
 Proof. exact wc_terminates_pf. Qed.
 Print Assumptions wc_terminates.
 
+(* Once the close has been performed -- in particular once any Close has returned -- no WaitUtil keeps waiting,
+   whenever its wait began: the channel a waiting call selected on is closed, its step is enabled and is exactly
+   "return true" (nothing else changes).  With wc_waitutil_iff: a wait that begins after a Close has returned
+   ends true, also when its timer fires in the same instant. *)
+Theorem wc_waiting_after_close :
+  forall progs sched i th c,
+    let s := wc_final (wc_init progs) sched in
+    let h := wc_history (wc_init progs) sched in
+    wc_close_rets h <> [] \/ wc_performs h <> [] ->
+    nth_error (wc_threads s) i = Some th -> wc_pcof th = WWait c ->
+    wc_closedb (wc_sh s) c = true /\ wc_enabled s (IRun i) = true /\
+    wc_step s (IRun i) =
+      ({| wc_sh := wc_sh s;
+          wc_threads := wc_set_thread (wc_threads s) i {| wc_pcof := WIdle; wc_todo := wc_todo th |} |},
+       [ARetWait true]).
+Proof. exact wc_waiting_after_close_pf. Qed.
+Print Assumptions wc_waiting_after_close.
+
+(* A call parked before mutex.Lock() (Close, or the lazy initialisation of C / WaitUtil), in ANY state: while
+   the mutex is held -- by the lazy initialisation of another call, by a Close before, inside or after its
+   callback -- its step changes nothing and returns nothing (so no Close returns by giving up on a held mutex);
+   on a free mutex it acquires it and does nothing else. *)
+Theorem wc_lock_waiter :
+  forall s j th,
+    nth_error (wc_threads s) j = Some th -> wc_at_lock (wc_pcof th) = true ->
+    (forall k, sh_own (wc_sh s) = Some k -> wc_step s (IRun j) = (s, [ABlocked])) /\
+    (sh_own (wc_sh s) = None ->
+       exists s', wc_step s (IRun j) = (s', [ALock]) /\ sh_own (wc_sh s') = Some j /\ wc_hold_th s' j = true).
+Proof. exact wc_lock_waiter_pf. Qed.
+Print Assumptions wc_lock_waiter.
+
+(* The steps the harness executes (models/WaitClose.v, "the steps of the harness": WaitUtil beginning to wait on
+   a closed channel returns within the same step; a thread that is really inside Lock() takes the mutex in the
+   step that releases it; forced steps of disabled threads) are runs of the model: same final state, same
+   history, for some schedule.  So every theorem above, being about all schedules, covers every run the
+   harness compares with the code -- from the initial state and after any prefix. *)
+Theorem wc_lwrun_is_run :
+  forall s inlock hsched, exists sched, wc_lwrun s inlock hsched = wc_run s sched.
+Proof. exact wc_lwrun_is_run_pf. Qed.
+Print Assumptions wc_lwrun_is_run.
+
+Theorem wc_lwrun_reachable :
+  forall progs pre inlock hsched,
+  exists sched,
+    let '(s2, h2) := wc_lwrun (wc_final (wc_init progs) pre) inlock hsched in
+    wc_final (wc_init progs) sched = s2 /\
+    wc_history (wc_init progs) sched = wc_history (wc_init progs) pre ++ h2.
+Proof. exact wc_lwrun_reachable_pf. Qed.
+Print Assumptions wc_lwrun_reachable.
+
 (* documentation: what the order "callback, deferred store, deferred unlock" and the second
    check under the mutex are there for.  With the state stored before the callback a second
    Close returns while the callback is still running; without the re-check two callbacks run. *)
@@ -225,3 +275,22 @@ Example wc_nonvacuous_wait :
   In (0, ARetWait false) (wc_history s0 (pre ++ [ITimeout 0; IRun 1])) /\
   In (0, ABlocked) (wc_history s0 (pre ++ [IRun 0])).
 Proof. vm_compute. intuition. Qed.
+
+(* non-vacuity of the harness-level steps.  (1) thread 1's Close is parked before the mutex held by thread 0's
+   blocking callback and is forced (no-op in the model, really inside Lock() in the code); the step of thread 0
+   that ends the callback and unlocks is followed at once by thread 1's acquisition.  (2) a WaitUtil that begins
+   to wait after the close returns true within the same harness step; one that began before is woken. *)
+Example wc_nonvacuous_harness :
+  let s0 := wc_init [[OpClose (Cb ONil true)]; [OpClose CbNone]] in
+  let r := wc_lwrun s0 None [(false,0);(false,0);(false,0);(false,0);(false,1);(false,1);(true,1);(false,1);(false,0)] in
+  wc_hold_th (fst r) 1 = true /\ sh_own (wc_sh (fst r)) = Some 1 /\
+  snd r = [(0, AInv (OpClose (Cb ONil true))); (0, ALoad WNew); (0, ALock); (0, APerform WGlobal); (0, ACbStart);
+           (1, AInv (OpClose CbNone)); (1, ALoad WNew); (1, ABlocked); (1, ABlocked);
+           (0, ACbEnd ONil); (0, AStore); (0, AUnlock); (1, ALock)] /\
+  let w0 := wc_init [[OpWait]; [OpClose CbNone]; [OpWait]] in
+  snd (wc_lwrun w0 None (map (pair false) [0;0;0;0;0;0; 1;1;1;1;1; 0; 2;2])) =
+    [(0, AInv OpWait); (0, ALoad WNew); (0, ALock); (0, AMake (WMade 0)); (0, AUnlock); (0, AWaitOn (WMade 0));
+     (0, ABlocked); (1, AInv (OpClose CbNone)); (1, ALoad WInit); (1, ALock); (1, APerform (WMade 0)); (1, AStore);
+     (1, AUnlock); (1, ARetClose RNil); (0, ARetWait true);
+     (2, AInv OpWait); (2, ALoad WClosed); (2, AWaitOn (WMade 0)); (2, ARetWait true)].
+Proof. vm_compute. repeat split. Qed.
